@@ -17,6 +17,17 @@ let () =
         lines := (line, v, (n op, n kind, n od, n sm, n ne)) :: !lines
     | _ -> ());
   let all = List.rev !lines in
+  (* "S <srckind> <op> <kind> <otherdev> <nonempty> <ok> <srcpresent> <srcorig> <dstorig> <thirdok> ..." : sources outside the
+     file-system model (/proc file, FIFO): specification on the observed outcome only *)
+  let special = ref 0 and special_fail = ref 0 in
+  iter_lines Sys.argv.(1) (fun line ->
+    match split_ws line with
+    | "S" :: sk :: op :: kind :: _od :: _ne :: ok :: sp :: so :: d :: th :: _ ->
+        let n s = n_of_int (int_of_string s) in
+        incr special;
+        if not (spec_special (n sk) (n op) (n kind) (n ok) (n sp) (n so) (n d) (n th)) then begin
+          incr special_fail; Printf.printf "SPECFAIL %s\n" line end
+    | _ -> ());
   let misses = Array.make 4 0 in
   List.iter (fun (_, v, _) ->
     if v.spec then
@@ -41,7 +52,7 @@ let () =
      let oc = open_out (Filename.concat (Filename.dirname Sys.argv.(1)) "strategy.txt") in
      output_string oc (string_of_int variant); close_out oc
    with _ -> ());
-  Printf.printf "STATS cases=%d specfail=%d mismatch=%d drift=0 strategy=%s alias_policy=%s variants_consistent_with_every_case=%s\n"
-    !cases !specfail !mismatch
+  Printf.printf "STATS cases=%d specfail=%d mismatch=%d drift=0 special_source_cases=%d strategy=%s alias_policy=%s variants_consistent_with_every_case=%s\n"
+    (!cases + !special) (!specfail + !special_fail) !mismatch !special
     (if variant land 1 = 1 then "replace" else "through") (if variant >= 2 then "noop" else "refuse")
     (if consistent = [] then "none" else String.concat "," (List.map name consistent))
